@@ -307,7 +307,8 @@ Definition class_of_outcome (o : outcome) : N :=
   end.
 
 (* local configuration of the node under test *)
-Record local_cfg := { lc_router : bool; lc_local : option (bytes * role) }.
+(* lc_local: id, role and writer state of RouterConfig.LocalNode *)
+Record local_cfg := { lc_router : bool; lc_local : option (bytes * role * wstate) }.
 Definition ntype := (role * wstate * nstate)%type.
 
 Definition ascii_p : N := 112.
@@ -322,7 +323,7 @@ Fixpoint peers_from (i : nat) (ts : list ntype) : list node :=
 Definition local_node (l : local_cfg) : option node :=
   match lc_local l with
   | None => None
-  | Some (id, r) => Some {| n_id := id; n_role := r; n_ws := WNone; n_state := SHealthy |}
+  | Some (id, r, w) => Some {| n_id := id; n_role := r; n_ws := w; n_state := SHealthy |}
   end.
 
 (* NewRegistry registers the local node, then the peers are Registered *)
@@ -366,7 +367,7 @@ Definition sweep_agrees (locals : list local_cfg) (types : list ntype) (c : swee
 Definition sweep_oracle (locals : list local_cfg) (types : list ntype) (c : sweep_case) : bool :=
   let l := nth_default default_local locals (sw_local c) in
   let k := sw_kind c in
-  let capable := negb (lc_router l) || match lc_local l with Some (_, r) => can_serve r k | None => false end in
+  let capable := negb (lc_router l) || match lc_local l with Some (_, r, _) => can_serve r k | None => false end in
   forallb (fun o : N * N * bytes =>
     let '(cls, tgt, mk) := o in
     if cls =? c_local then capable
@@ -454,30 +455,35 @@ Definition decide_agrees (locals : list local_cfg) (c : decide_case) : bool :=
   Bool.eqb (dc_should c) (match d with DToPeer => true | _ => false end).
 Definition decide_oracle (locals : list local_cfg) (c : decide_case) : bool :=
   let l := nth_default default_local locals (dc_local c) in
-  let capable := negb (lc_router l) || match lc_local l with Some (_, r) => can_serve r (dc_kind c) | None => false end in
+  let capable := negb (lc_router l) || match lc_local l with Some (_, r, _) => can_serve r (dc_kind c) | None => false end in
   Bool.eqb (dc_decision c =? 0) capable &&
   (* a request that shows a marker is never forwarded *)
   (is_empty (dc_seen c) || negb (dc_decision c =? 1)).
 
-(* --- endpoints: real handlers behind their own RegisterRoutes; four scenarios each *)
+(* --- endpoints: real handlers behind their own RegisterRoutes; six scenarios each *)
 Record endpoint_case := { ep_consults : bool; ep_kind : kind; ep_obs : list (N * N * bytes) }.
 
 Definition ascii_L : bytes := [76].
 Definition endpoint_scenarios (k : kind) : list (option router * bytes) :=
   let peer := {| n_id := peer_id 1; n_role := Writer; n_ws := WNone; n_state := SHealthy |} in
   let incapable := match k with KWrite => Reader | KQuery => Compactor end in
-  let mk r := mk_router {| lc_router := true; lc_local := Some (ascii_L, r) |} [peer] in
-  [ (mk incapable, []); (mk incapable, seen_of_client [spoof_value]); (mk Writer, []); (None, []) ].
+  let mk r w := mk_router {| lc_router := true; lc_local := Some (ascii_L, r, w) |} [peer] in
+  [ (mk incapable WNone, []); (mk incapable WNone, seen_of_client [spoof_value]); (mk Writer WNone, []); (None, []);
+    (mk Writer WStandby, seen_of_client [spoof_value]); (mk Writer WPrimary, seen_of_client [spoof_value]) ].
 
 Definition endpoint_agrees (c : endpoint_case) : bool :=
   Nat.eqb (length (ep_obs c)) (length (endpoint_scenarios (ep_kind c))) &&
   forallb (fun p : (option router * bytes) * (N * N * bytes) =>
              obs_matches_step (endpoint_step (ep_consults c) (fst (fst p)) (snd (fst p)) (ep_kind c)) (snd p))
           (combine (endpoint_scenarios (ep_kind c)) (ep_obs c)).
-(* scenarios 0 and 1 run on a node whose role cannot serve the request: it must not process it *)
+(* scenarios 0 and 1 run on a node whose role cannot serve the request: it must not process it;
+   scenarios 2..5 run on a node that can (no router, or a writer in any writer state, with or
+   without a client marker): it must process it *)
 Definition endpoint_oracle (c : endpoint_case) : bool :=
   match ep_obs c with
-  | (c0, _, _) :: (c1, _, _) :: _ => negb (c0 =? c_local) && negb (c1 =? c_local)
+  | (c0, _, _) :: (c1, _, _) :: rest =>
+      negb (c0 =? c_local) && negb (c1 =? c_local) &&
+      Nat.eqb (length rest) 4 && forallb (fun o : N * N * bytes => fst (fst o) =? c_local) rest
   | _ => false
   end.
 
@@ -523,6 +529,15 @@ Definition e2e_oracle (c : e2e_case) : bool :=
     | _ => true
     end in
   (negb entry_marker_ok || Nat.leb (length (ee_hits c)) 2) &&
+  (* a node that can serve the request serves it: the last node visited, when capable, processed *)
+  match rev (ee_hits c) with
+  | (id, _) :: _ => match find (fun a => bytes_eqb (a_id a) id) (ee_cluster c) with
+                    | Some a => negb (capable_here a (ee_kind c)) || (ee_class c =? c_local)
+                    | None => false
+                    end
+  | [] => false
+  end &&
+  (negb (capable_here entry (ee_kind c)) || Nat.eqb (length (ee_hits c)) 1) &&
   (negb (ee_class c =? c_local) ||
    match rev (ee_hits c) with
    | (id, _) :: _ => match find (fun a => bytes_eqb (a_id a) id) (ee_cluster c) with
